@@ -18,6 +18,7 @@ RULE = ("cases = prefix + delimiter + indicator + delimiter + suffix with ground
         "63-65, 200, 1000; neutral prefixes/suffixes verified neutral by scanning (incl. words containing 'MZ' and heuristic trigger "
         "words placed AFTER the indicator). Oracle: a node with the documented type, canonical value and exactly the indicator's "
         "absolute span; metamorphic: the same indicator at another offset / with more neutral text yields the same sub-tree. "
+        "A 3 % share of the indicators is far longer than any fixed limit (URLs with up to 6000 path segments, 6000-segment POSIX / Windows paths, long e-mail local parts, executable names and domains). "
         "distinct_nontrivial = distinct judged (kind, input) cases.")
 ASSUMPTIONS = ["for .dll names both executable.filename and executable.library.filename are accepted",
                "URL delimiters are paired as the documentation of find_urls describes; URLs never end in ' ) , . ;"]
